@@ -114,7 +114,23 @@ def gen(tier, seed):
     return tmcommon.gen_rows(tier, seed, kinds=False)
 
 
-SUBCHECKS = [Sub('psf_gridconv', gen, ev_row, chunk=16, floor=1000, envs=24)]
+# --- two threads at DIFFERENT positions / ellipsoids / projections at the same time ----------
+from gpmc import threads as _thr
+import numpy as _tnp
+import geodepy.constants as _tgc
+import geodepy.convert as _tgv
+import geodepy.geodesy as _tgg
+import geodepy.angles as _tga
+T_CALLS = {
+    'fwd_utm': lambda: (lambda: _tgv.geo2grid(-33.5, 151.2)[4:]),
+    'fwd_isg': lambda: (lambda: _tgv.geo2grid(-33.5, 151.2, 0, _tgc.ans, _tgc.isg)[4:]),
+    'inv_utm_north': lambda: (lambda: _tgv.grid2geo(18, 612345.678, 4321098.765, 'North', _tgc.intl24)[2:]),
+    'inv_isg': lambda: (lambda: _tgv.grid2geo(561, 318743.2, 1291327.7, 'south', _tgc.ans, _tgc.isg)[2:]),
+}
+_tg, _te = _thr.make(T_CALLS, ['geodepy/convert.py'], 'convert:psfandgridconv:threads', triple=('fwd_utm', 'fwd_isg', 'inv_isg'))
+
+
+SUBCHECKS = [Sub('psf_gridconv', gen, ev_row, chunk=16, floor=1000, envs=24), Sub('threads', _tg, _te, chunk=1, floor=3, poison=False)]
 
 
 def bounds(tier, seed):
